@@ -39,6 +39,10 @@ class MarkedError(Exception):
     pass
 
 
+class MarkedTypeError(TypeError):
+    """an application error that happens to derive from TypeError (bad argument): unwinds like any other"""
+
+
 def make_resp(rec_, text):
     """the returned response object is a werkzeug Response, a bare BaseResponse or a *returned* HTTPException
     (all three are "a Response" for the framework: render must be skipped alike)"""
@@ -58,6 +62,8 @@ def make_exc(rec_, text):
     if rec_.get('_http_exc'):
         from clastic.errors import NotFound
         return NotFound(text)
+    if rec_.get('_type_exc'):
+        return MarkedTypeError(text)
     return MarkedError(text)
 
 
@@ -226,12 +232,12 @@ def build(rec_, R):
     return app, '/sub/x'
 
 
-def run_one(rec_, direct=False, share=False, http_exc=False, resp_kind=0, provides=False, related=False, sibling=False, nonreord=False):
+def run_one(rec_, direct=False, share=False, http_exc=False, resp_kind=0, provides=False, related=False, sibling=False, nonreord=False, type_exc=False):
     from werkzeug.test import Client
     from werkzeug.wrappers import BaseResponse
     R = Rec()
     rec_ = dict(rec_, _direct=direct, _share=share, _http_exc=http_exc, _resp_kind=resp_kind, _provides=provides, _related=related,
-                _sibling=sibling, _nonreord=nonreord)
+                _sibling=sibling, _nonreord=nonreord, _type_exc=type_exc)
     try:
         app, path = build(rec_, R)
     except Exception as e:  # noqa  (the configuration is inside the model: construction must succeed)
@@ -241,7 +247,17 @@ def run_one(rec_, direct=False, share=False, http_exc=False, resp_kind=0, provid
         resp = cl.get(path)
     except Exception as e:  # noqa
         return R.events + [['escaped', [0, 0], type(e).__name__, [0, 0]]], -1
-    return R.events, resp.status_code
+    events = list(R.events)
+    # an unknown URL is answered by the catch-all route, which is a route of the OUTER application like any other: the
+    # outer application's request middlewares run for it, in list order (Merge with an empty inner / route list)
+    del R.events[:]
+    try:
+        cl.get('/no/such/url/zz')
+        R.null_entered = [e[1] for e in R.events if e[0] == 'enter' and e[1][1] == 1]
+    except Exception as e:  # noqa
+        R.null_entered = ['escaped:' + type(e).__name__]
+    run_one.null_entered = R.null_entered
+    return events, resp.status_code
 
 
 def expected_events(rec_):
@@ -305,8 +321,22 @@ def check(run):
         direct = (n % 2 == 0)
         share, http_exc, resp_kind, provides = (n % 3 == 1), (n % 4 >= 2), (n // 2) % 3, (n % 5 < 2)
         related, sibling, nonreord = (n % 2 == 1), (n % 3 != 0), (n % 4 < 2)
+        type_exc = (not http_exc) and (n % 3 == 2)
         obs, status = run_one(b, direct=direct, share=share, http_exc=http_exc, resp_kind=resp_kind, provides=provides,
-                              related=related, sibling=sibling, nonreord=nonreord)
+                              related=related, sibling=sibling, nonreord=nonreord, type_exc=type_exc)
+        # catch-all probe: the request-phase functions of the OUTER list, up to the first that does not call next()
+        outer_req = [c for c in b['chain'] if c['lvl'] == 1 and 1 in c['ph']]
+        exp_null = []
+        for c in outer_req:
+            kpos = [k + 1 for k, cc in enumerate(b['chain']) if cc['lvl'] == c['lvl'] and cc['i'] == c['i']][0]
+            exp_null.append([kpos, 1])
+            if tuple(b['plan']['f']) == (kpos, 1) and b['plan']['k'] in ('raiseBefore', 'short'):
+                break
+        got_null = getattr(run_one, 'null_entered', None)
+        if not share and got_null is not None and got_null != exp_null:
+            run.violation('catch-all-route-middlewares', 'unknown URL: request middlewares entered %r, the outer application lists %r'
+                          % (got_null, exp_null), {'leg': 'L2', 'behaviour': b, 'observed': got_null, 'expected': exp_null,
+                                                    'direct': direct})
         run.evaluations += 1
         if len(b['chain']) >= 2 or b['plan']['k'] != 'none':
             run.nontrivial.add(key)
@@ -319,7 +349,7 @@ def check(run):
             run.violation(classify(exp, obs, k, a, bb),
                           'event %d: spec %r, implementation %r (plan %r)' % (k, a, bb, b['plan']),
                           {'leg': 'L2', 'behaviour': b, 'observed': obs, 'direct': direct, 'share': share, 'http_exc': http_exc, 'resp_kind': resp_kind, 'provides': provides,
-                           'related': related, 'sibling': sibling, 'nonreord': nonreord, 'first_diff': [k, a, bb]})
+                           'related': related, 'sibling': sibling, 'nonreord': nonreord, 'type_exc': type_exc, 'first_diff': [k, a, bb]})
         else:
             run.violation('final-status', 'final value %r but status %s' % (b['final'], status),
                           {'leg': 'L2', 'behaviour': b, 'observed': obs, 'direct': direct})
@@ -334,7 +364,7 @@ def replay(run, path):
     c = rp['case']
     obs, status = run_one(c['behaviour'], direct=c.get('direct', False), share=c.get('share', False), http_exc=c.get('http_exc', False),
                           resp_kind=c.get('resp_kind', 0), provides=c.get('provides', False), related=c.get('related', False),
-                          sibling=c.get('sibling', False), nonreord=c.get('nonreord', False))
+                          sibling=c.get('sibling', False), nonreord=c.get('nonreord', False), type_exc=c.get('type_exc', False))
     exp = expected_events(c['behaviour'])
     d = first_diff(exp, obs)
     print('expected:', exp)
